@@ -4,12 +4,15 @@
    and the range is within B: the result's tokens are A ++ open :: B' ++ close :: C with the same A, the
    same open token (type, attributes, marks), the same C; B' is B with the range spliced.  So a step whose
    ends lie inside an isolating node can empty or rewrite the inside and never removes, splits or merges the
-   node.  That the planners (range expansion in covered_depths, the fitter, lift_target, can_split) only
-   emit steps whose range stays inside the isolating node is evaluated per case by Corr.C18. *)
+   node.  About the planners (modelled in Model.StructOps / Model.RangeOps, compared with the implementation on
+   every run): lift_target and can_split never cross an isolating boundary, and covered_depths - the range
+   expansion of delete_range / replace_range - never expands past an isolating ancestor of either end (theorems
+   below).  That the fitter only emits steps whose range stays inside the isolating node is evaluated per case by
+   Corr.C18 (it does not always: known finding C18-fitter-closes-isolating-node). *)
 From Coq Require Import List Arith.
 From PM Require Import Model.Data Model.Mark Model.Tree Model.Step Spec.Tokens
   Proofs.ReplaceValid Proofs.SliceSides Proofs.TokenBasics Proofs.ReplaceTokens Proofs.SliceShape Proofs.TokenLaws
-  Proofs.AroundLaws.
+  Proofs.AroundLaws Model.Resolve Model.StructOps Model.RangeOps Proofs.IsolatingProofs.
 Import ListNotations.
 
 Theorem C18_step_inside_node_stays_inside : forall s from to sl structure doc d' A o B C,
@@ -33,3 +36,33 @@ Theorem C18_around_step_inside_node_stays_inside : forall s from to gf gt sl ins
   exists B', DT s d' = A ++ o :: B' ++ TClose :: C.
 Proof. exact around_step_inside_node. Qed.
 Print Assumptions C18_around_step_inside_node_stays_inside.
+
+(* ---- the helpers ----
+   lift_target(range) = d: d lies strictly above the range, and every ancestor the lift takes the content out of
+   (depths d+1 .. range.depth of the range's start) is a NON-isolating node *)
+Theorem C18_lift_target_stays_inside_isolating : forall s r d,
+  lift_target s r = Ok (Some d) ->
+  d < nr_depth r /\
+  forall k, d < k -> k <= nr_depth r -> exists n, rp_node (nr_from r) k = Ok n /\ isolating s n = false.
+Proof. exact lift_target_not_across_isolating. Qed.
+Print Assumptions C18_lift_target_stays_inside_isolating.
+
+(* can_split(doc, pos, depth) = True: each of the `depth` innermost ancestors of pos - the nodes the split cuts in
+   two - is a non-isolating node *)
+Theorem C18_can_split_stays_inside_isolating : forall s doc pos depth r,
+  can_split s doc pos depth = Ok true -> resolve s doc pos = Ok r ->
+  depth <= rp_depth r /\
+  forall k, rp_depth r - depth < k -> k <= rp_depth r -> exists n, rp_node r k = Ok n /\ isolating s n = false.
+Proof. exact can_split_not_across_isolating. Qed.
+Print Assumptions C18_can_split_stays_inside_isolating.
+
+(* covered_depths(from, to): a depth the range may be expanded to lies below no isolating ancestor of either end:
+   the ancestors of both ends at depths d .. min(depth) are all non-isolating, so [start(d), end(d)] and
+   [before(d), after(d)] stay inside the innermost isolating node holding both ends *)
+Theorem C18_range_expansion_stays_inside_isolating : forall s rf rt l d,
+  covered_depths s rf rt = Ok l -> In d l ->
+  d <= Nat.min (rp_depth rf) (rp_depth rt) /\
+  forall j, d <= j -> j <= Nat.min (rp_depth rf) (rp_depth rt) ->
+    exists nf nt, rp_node rf j = Ok nf /\ rp_node rt j = Ok nt /\ iso_node s nf = false /\ iso_node s nt = false.
+Proof. exact covered_depths_below_isolating. Qed.
+Print Assumptions C18_range_expansion_stays_inside_isolating.
